@@ -5,7 +5,7 @@
     (step.c scanning primitives), over Map/MapModel.v (C10) and Xlat/Step.v (C02). *)
 From Coq Require Import NArith ZArith List Bool Lia.
 From KdV Require Import Base.Wrap64 Map.MapModel Map.MapSpec Xlat.Step Xlat.ArchSpec
-  Sys.LayoutModel Sys.LayoutSpec Sys.LayoutProofs Sys.LayoutArchModel Sys.LayoutArchProofs Sys.ScanModel Sys.ScanProofs Sys.LinuxX86Model Sys.LinuxX86Proofs Sys.LinuxX86Region Sys.LinuxRvA64Model Sys.LinuxRvA64Proofs Xlat.WalkProofs Xlat.FmtX86.
+  Sys.LayoutModel Sys.LayoutSpec Sys.LayoutProofs Sys.LayoutArchModel Sys.LayoutArchProofs Sys.ScanModel Sys.ScanProofs Sys.LinuxX86Model Sys.LinuxX86Proofs Sys.LinuxX86Region Sys.LinuxRvA64Model Sys.LinuxRvA64Proofs Xlat.WalkProofs Xlat.FmtX86 Xlat.FmtA64.
 Import ListNotations.
 Local Open Scope N_scope.
 
@@ -379,6 +379,27 @@ Theorem C08_aarch64_linux_linear_witness_partial : forall img vb s s',
     install_linear s first last (wsub (s_base st) first) (s_base st) (s_base st2) = (O_ST OK, s').
 Proof. exact a64_linear_map_witness. Qed.
 Print Assumptions C08_aarch64_linux_linear_witness_partial.
+
+(** aarch64's self-check: a direct region is installed only when the lowest and
+    the highest mapped address of the scanned half have the same
+    virtual-to-physical offset.  So for ANY image (canonical or not) whose kernel
+    page table uses an AArch64 descriptor format with one of C02's level layouts:
+    the direct method that [add_linux_linear_map] installs agrees with the
+    architectural walk of the page tables at both ends of its region *)
+Theorem C08_aarch64_linear_map_checked : forall img v s ras root mask pf tgt vb s',
+  pgt_meth s = {| m_kind := KPgt ras root mask pf; m_target := tgt |} ->
+  pte_format pf = a64_fmt v -> a64_form v (fieldsz pf) ->
+  (forall a x, rd img s a x <> RdErr OK) ->
+  wf_sys s -> vb <= 64 ->
+  a64_add_linux_linear_map img vb s = (O_ST OK, s') ->
+  let walk a := arch_levels (rd img s) (af_aarch64 v) tgt mask (fieldsz pf) a (length (fieldsz pf) - 1) ras root in
+  exists first last p1 p2 d,
+    first <= last /\
+    get_meth s' METH_DIRECT = mk_linear KPHYSADDR d /\
+    walk first = (OK, Some (tgt, p1)) /\ walk last = (OK, Some (tgt, p2)) /\
+    lin d first = p1 /\ lin d last = p2.
+Proof. exact aarch64_linear_map_checked. Qed.
+Print Assumptions C08_aarch64_linear_map_checked.
 
 (** the hypotheses are satisfiable: the x86-64 Linux 2.6.31 direct mapping *)
 Example C08_nonvacuous_layout :
